@@ -19,6 +19,8 @@ type Swarm struct {
 	// Cold: the run is the first thing its process does and nothing of the library runs before the concurrent tasks start
 	// (C20: first-use initialisation of process-wide state happens under concurrency)
 	Cold bool `json:"cold,omitempty"`
+	// FarFuture (C09): every windowed operation is also applied as if anchored at 2^63-1, 2^63, 2^63+t and 2^64-1
+	FarFuture bool `json:"farFuture,omitempty"`
 	// Soak: every non-create operation is applied this many further times to the same state through the same applier
 	Soak int `json:"soak,omitempty"`
 	// FlushPools: the runtime's object pools are emptied at every task switch (C20; always on in cold runs)
@@ -90,6 +92,7 @@ type Step struct {
 	Opaque       bool   `json:"opaque,omitempty"`  // create/recover from an opaque document instead of patches
 	NextUpd      int    `json:"nextUpd,omitempty"` // pool index of the next update key
 	NextRec      int    `json:"nextRec,omitempty"` // pool index of the next recovery key
+	NextUpdIsRevealed bool `json:"nextUpdIsRevealed,omitempty"` // recover: the next update key is the recovery key being revealed (allowed)
 	NonceUpd     bool   `json:"nonceUpd,omitempty"`
 	NonceRec     bool   `json:"nonceRec,omitempty"`
 	SignKey      int    `json:"signKey,omitempty"` // 0: the wallet's current key; else pool index + 1 (hostile / replay)
